@@ -16,6 +16,8 @@ def schema_stores(fi):
             for t in n.targets:
                 if isinstance(t, ast.Subscript) and _const(t.slice) == 'fields':
                     out.append((n, n.value))
+                elif isinstance(t, ast.Subscript) and isinstance(t.value, ast.Subscript) and _const(t.value.slice) == 'fields':
+                    out.append((n, n.value))
                 elif isinstance(t, ast.Subscript) and _const(t.slice) == 'name' and isinstance(t.value, ast.Name):
                     out.append((n, n.value))
         elif isinstance(n, ast.Call) and isinstance(n.func, ast.Attribute) and n.func.attr in ('append', 'extend'):
